@@ -144,6 +144,35 @@ impl System for TickSystem
     }
 }
 
+/*  a FakeSystem that holds up some of the renames into target paths for a moment: rule threads that take files back from the cache then
+    reach the cache in another order (a mild schedule perturbation for the hand-picked histories; 0 = no delay) */
+static SKEW : std::sync::atomic::AtomicUsize = std::sync::atomic::AtomicUsize::new(0);
+#[derive(Clone)]
+struct SkewSystem { inner: FakeSystem }
+impl std::fmt::Debug for SkewSystem { fn fmt(&self, f: &mut std::fmt::Formatter<'_>) -> std::fmt::Result { write!(f, "SkewSystem") } }
+impl System for SkewSystem
+{
+    type File = crate::system::fake::FakeOpenFile;
+    fn open(&self, path: &str) -> Result<Self::File, crate::system::SystemError> { self.inner.open(path) }
+    fn create_file(&mut self, path: &str) -> Result<Self::File, crate::system::SystemError> { self.inner.create_file(path) }
+    fn create_dir(&mut self, path: &str) -> Result<(), crate::system::SystemError> { self.inner.create_dir(path) }
+    fn is_dir(&self, path: &str) -> bool { self.inner.is_dir(path) }
+    fn is_file(&self, path: &str) -> bool { self.inner.is_file(path) }
+    fn remove_file(&mut self, path: &str) -> Result<(), crate::system::SystemError> { self.inner.remove_file(path) }
+    fn remove_dir(&mut self, path: &str) -> Result<(), crate::system::SystemError> { self.inner.remove_dir(path) }
+    fn list_dir(&self, path: &str) -> Result<Vec<String>, crate::system::SystemError> { self.inner.list_dir(path) }
+    fn rename(&mut self, from: &str, to: &str) -> Result<(), crate::system::SystemError>
+    {
+        let k = SKEW.load(std::sync::atomic::Ordering::SeqCst);
+        if k != 0 { if let Some(i) = TARGETS.iter().position(|t| *t == to || *t == from) { if i % 3 == k - 1 { std::thread::sleep(std::time::Duration::from_millis(15)); } } }
+        self.inner.rename(from, to)
+    }
+    fn get_modified(&self, path: &str) -> Result<std::time::SystemTime, crate::system::SystemError> { self.inner.get_modified(path) }
+    fn is_executable(&self, path: &str) -> Result<bool, crate::system::SystemError> { self.inner.is_executable(path) }
+    fn set_is_executable(&mut self, path: &str, executable: bool) -> Result<(), crate::system::SystemError> { self.inner.set_is_executable(path, executable) }
+    fn execute_command(&mut self, command_script: crate::system::CommandScript) -> Vec<Result<crate::system::CommandLineOutput, crate::system::SystemError>> { self.inner.execute_command(command_script) }
+}
+
 /*  records the status lines of a build, for the C20 oracle */
 struct RecordingPrinter { banners: Vec<(String, String)>, errors: Vec<String> }
 impl Printer for RecordingPrinter
@@ -299,7 +328,7 @@ fn run_history_clock(h: &Vec<Act>, drop_table: bool, fine: bool) -> Outcome
                 let target_stats_before : Vec<Option<(String, std::time::SystemTime, bool)>> = TARGETS.iter().map(|p| stat(&system, p)).collect();
                 let mut printer = RecordingPrinter { banners: vec![], errors: vec![] };
                 let clock = std::sync::Arc::new(std::sync::atomic::AtomicU64::new(now));
-                let result = if fine { build(TickSystem { inner: system.clone(), clock: clock.clone(), local: now }, &mut printer, params(goal)) } else { build(system.clone(), &mut printer, params(goal)) };
+                let result = if fine { build(TickSystem { inner: system.clone(), clock: clock.clone(), local: now }, &mut printer, params(goal)) } else { build(SkewSystem { inner: system.clone() }, &mut printer, params(goal)) };
                 { let t = clock.load(std::sync::atomic::Ordering::SeqCst); system.time_passes(t - now); now = t; }
                 let ok = result.is_ok();
                 verdicts.push(ok);
@@ -412,7 +441,7 @@ fn run_history_clock(h: &Vec<Act>, drop_table: bool, fine: bool) -> Outcome
                 is_ruler = true;
                 let goal = if *a == Act::CleanStanza { Some("stanza.txt".to_string()) } else if *a == Act::CleanAside { Some("aside.txt".to_string()) } else { None };
                 let clock = std::sync::Arc::new(std::sync::atomic::AtomicU64::new(now));
-                let cleaned = if fine { clean(TickSystem { inner: system.clone(), clock: clock.clone(), local: now }, ".ruler", vec!["build.rules".to_string()], goal) } else { clean(system.clone(), ".ruler", vec!["build.rules".to_string()], goal) };
+                let cleaned = if fine { clean(TickSystem { inner: system.clone(), clock: clock.clone(), local: now }, ".ruler", vec!["build.rules".to_string()], goal) } else { clean(SkewSystem { inner: system.clone() }, ".ruler", vec!["build.rules".to_string()], goal) };
                 { let t = clock.load(std::sync::atomic::Ordering::SeqCst); system.time_passes(t - now); now = t; }
                 /*  C10: after a clean that reported success none of the in-scope target files exists in the workspace
                     (that their contents are in the cache is the C08 oracle; that the next build brings them back without
@@ -547,9 +576,17 @@ fn verif_build_long_histories()
     let mut bad = vec![0u64; names.len()];
     for h in hs.iter()
     {
-        let o1 = run_history(h, false); let o2 = run_history(h, true);
-        let mut all = o1.complaints.clone();
-        if o1.finals != o2.finals || o1.verdicts != o2.verdicts { all.push(("B-build-C18".to_string(), format!("with table: {:?} {:?}; table erased: {:?} {:?}", o1.verdicts, o1.finals, o2.verdicts, o2.finals))); }
+        /*  under four mild schedule perturbations (none; renames from / to every third target held up, for each of the three residues): what a
+            history shows may depend on which of two rule threads reaches a shared cache entry first */
+        let mut all : Vec<(String, String)> = vec![];
+        for skew in 0..4usize
+        {
+            SKEW.store(skew, std::sync::atomic::Ordering::SeqCst);
+            let o1 = run_history(h, false); let o2 = run_history(h, true);
+            for c in o1.complaints.iter() { if !all.contains(c) { all.push(c.clone()); } }
+            if o1.finals != o2.finals || o1.verdicts != o2.verdicts { let c = ("B-build-C18".to_string(), format!("with table: {:?} {:?}; table erased: {:?} {:?}", o1.verdicts, o1.finals, o2.verdicts, o2.finals)); if !all.iter().any(|x| x.0 == c.0) { all.push(c); } }
+        }
+        SKEW.store(0, std::sync::atomic::Ordering::SeqCst);
         for (name, what) in all.iter() { let k = names.iter().position(|n| n == name).unwrap(); bad[k] += 1; println!("WITNESS {}-long :: {:?} :: {}", name, h, what); }
         /*  the same history with a fine clock (every write has its own modification time) */
         let o3 = run_history_clock(h, false, true);
@@ -833,6 +870,31 @@ tool.src
 manual.txt
 :
 ";
+const RULES_EQUAL : &str = "\
+joined.txt
+:
+a.src
+b.src
+c.src
+:
+mycat
+a.src
+b.src
+c.src
+joined.txt
+:
+
+final.txt
+:
+joined.txt
+tail.src
+:
+mycat
+joined.txt
+tail.src
+final.txt
+:
+";
 const RULES_FAILS : &str = "\
 left.txt
 :
@@ -910,6 +972,14 @@ fn verif_build_mini_scenarios()
                    vec![Build, SetExec("tool.sh"), Build, Clean, Build],
                    vec![Build, SetExec("tool.sh"), Clean, Build, Clean, Build],
                    vec![Build, SetExec("tool.sh"), Build, Write("tool.src", "#!/bin/sh\necho tool 2\n"), Build, Write("tool.src", "#!/bin/sh\necho tool\n"), Build],
+               ] },
+        /*  sources of one rule that hold the same bytes: which of them holds what matters (the sequence of hashes, not the set) */
+        Mini { name: "neighbouring sources with equal contents", rules: RULES_EQUAL, files: &[("a.src", "P\n"), ("b.src", "P\n"), ("c.src", "Q\n"), ("tail.src", "tail one\n")], dirs: &[],
+               targets: &["joined.txt", "final.txt"],
+               histories: vec![
+                   vec![Build, Write("b.src", "Q\n"), Build],
+                   vec![Build, Write("b.src", "Q\n"), Write("tail.src", "tail two\n"), Build, Write("b.src", "P\n"), Build],
+                   vec![Build, Write("a.src", "Q\n"), Write("c.src", "P\n"), Build, Clean, Build],
                ] },
         Mini { name: "several rules fail alike", rules: RULES_FAILS, files: &[("in.txt", "input\n")], dirs: &[],
                targets: &["left.txt", "right.txt", "middle.txt", "far.txt", "further.txt"],
